@@ -276,6 +276,9 @@ def check(ctx):
                key=f"C08.3:{mname}:via-reduce")
 
     # --------------------------------------------------------------- C08.4
+    from .. import vendored
+    vendored.check(ctx, "C08.4", ("quaternion_matrix",
+                                  "quaternion_from_matrix"))
     _lazy_getters(ctx, prog)
     # --------------------------------------------------------------- C08.5
     _transform(ctx, prog)
